@@ -18,7 +18,8 @@ META = {
 def shards(tier):
     names = sorted(C.number_modules())
     n = 32 if tier == 'quick' else 64
-    return [{'name': 'm%02d' % i, 'modules': part} for i, part in enumerate(C.chunk(names, n)) if part]
+    return [{'name': 'm%02d' % i, 'modules': part} for i, part in enumerate(C.chunk(names, n)) if part] + \
+        [{'name': 'doctest-suite', 'kind': 'doctests', 'modules': []}]
 
 
 def check_one(name, mod, x, opts, cls, viols):
@@ -55,6 +56,8 @@ def inputs_for(name, mod, tier, rng):
 
 
 def work(shard, tier):
+    if shard.get('kind') == 'doctests':
+        return doctest_suite_work()
     mods = C.number_modules()
     viols = {}
     cells = set()
@@ -149,3 +152,15 @@ def replay(w):
     viols = {}
     check_one(w['module'], mod, w['arg'], w.get('options') or {}, w.get('cls', ''), viols)
     return list(viols.values())
+
+
+def doctest_suite_work():
+    """The repository's own doctest suite with this property's boundary contract switched on."""
+    rec, err = C.run_doctests_with_contracts('C02')
+    if err:
+        return {'evaluations': 0, 'nontrivial': 0, 'violations': [], 'inconclusive': ['contracts-on doctest run failed: %s' % err]}
+    return {'evaluations': rec['calls'], 'nontrivial': 0, 'violations': rec['violations'],
+            'samples': [{'workload': 'repository doctest suite under contracts', 'validate_calls': rec['calls'], 'pytest': rec['pytest_tail']}],
+            'counters': {'doctest_suite_validate_calls': rec['calls'], 'doctest_suite_accepted_calls': rec['accepted'],
+                         'doctest_suite_modules': len(rec['modules'])},
+            'sets': {}}
